@@ -98,6 +98,12 @@ class AbstractExcelInPython(ABC):
 
     def _compare(self, operator: str, left_operand: str | int | float | datetime.date | datetime.datetime,
                           right_operand: str | int | float | datetime.date | datetime.datetime) -> bool:
+        # a blank cell against a text is the empty text, also when the text looks like a number
+        if isinstance(left_operand, self.EmptyCell) and isinstance(right_operand, str):
+            left_operand = ''
+        if isinstance(right_operand, self.EmptyCell) and isinstance(left_operand, str):
+            right_operand = ''
+
         try:
             return self._by_operator(operator, float(left_operand), float(right_operand))
         except (ValueError, TypeError):
